@@ -254,6 +254,27 @@ def rule_escape(run, F, cfg):
            "in write_string_complex every path from the emission of an escape sequence to the next loop "
            "iteration sets start = index + 1 (otherwise the raw byte is copied again after its escape)",
            site=w.loc(esc_calls[0]) if esc_calls else w.loc(0), config=cfg)
+    # \uXXXX digits: exactly under `escape == b'u'`, format!("{:04x}", ch) of the byte being escaped
+    HEX4 = 'b"\\xc3 \\x00\\x00i\\x04\\x00\\x00"'   # rustc's encoding of the template `{:04x}` (this toolchain)
+    ufmt = []
+    for b, t in w.calls(r"^std::vec::Vec::extend_from_slice$"):
+        c = dominating_conditions(w, b)
+        if any(re.search(r"ESCAPED\[_\] Eq 117\)$", k) and v == 1 for k, v in c.items()):
+            ufmt.append((b, w.expr_operand(t["args"][1])))
+    oku = len(ufmt) == 1
+    if oku:
+        e = ufmt[0][1]
+        oku = (HEX4 in e and "Argument::new_lower_hex(" in e and "Arguments::new(" in e
+               and e.count("Argument::new_") == 1)
+        # the formatted value is the loop's current byte (the same one that indexes ESCAPED)
+        hexarg = [w.expr_operand(t["args"][0]) for b, t in w.calls(r"Argument::new_lower_hex$")]
+        oku = oku and len(hexarg) == 1 and bool(re.search(r"Iterator>::next\(.*\)@Some\.0\.1\)?(\.0)?$", hexarg[0]))
+    run.ob("C18.4.escape-table", "unicode-escape-digits", oku,
+           "after `\\u` (emitted exactly when ESCAPED[ch] == b'u') write_string_complex appends "
+           "format!(\"{:04x}\", ch) of the byte being escaped: four lower-case hex digits, most significant "
+           "first, so the JS literal decodes to the original control character",
+           site=w.loc(ufmt[0][0]) if ufmt else w.loc(0), config=cfg,
+           detail=str([u[1][:200] for u in ufmt]))
     # the escape byte emitted comes from the table for this byte
     tbl_idx = [b for b, t in w.calls(r"") if False]
     sa = [g for n, g in F.fns.items() if n == RS + "stringify_arg"]
